@@ -819,7 +819,7 @@ func (s Source) GobEncode() ([]byte, error) {
 
 // Equals verifies if our receiver Object is equals with the "with" Object
 func (o Object) Equals(with Item) bool {
-	if IsItemCollection(with) {
+	if IsNil(with) || IsItemCollection(with) {
 		return false
 	}
 	if withID := with.GetID(); !o.ID.Equals(withID, true) {
